@@ -128,7 +128,7 @@ type kase struct {
 type ctx struct {
 	run     *core.Run
 	evals   int64
-	classes *core.Counter
+	classes *counter
 	samples *core.Sampler
 	dataMax int
 
